@@ -8,6 +8,8 @@ From Coq.Strings Require Import Byte.
 Require Import GV.Base.Res GV.Base.Byt GV.Base.Ints.
 Require GV.Spec.CfaSpec GV.Model.CfiRun GV.Proofs.CfiRunProofs GV.Spec.CfiSpec GV.Model.CfiRd.
 Require Import GV.Spec.LebSpec GV.Spec.CfaEncSpec GV.Model.Leb GV.Model.Prim GV.Model.CfiWr GV.Proofs.CfiWrProofs GV.Proofs.CfiRoundtrip.
+Require GV.Model.CfiUwi.
+Require Import GV.Spec.CfaScriptSpec GV.Proofs.CfaScriptProofs.
 Import ListNotations.
 Local Open Scope N_scope.
 
@@ -458,7 +460,9 @@ Qed.
    depends only on its C14 meaning is not proved; (2) the link from entries_read_by_reader's FDE record
    (fd_init, fd_range, instruction windows) to the fde_in handed to CfiRun is by construction of fde_in_of,
    not through a common record type (CfiRun takes an already-parsed FDE: C06 and C05 share no type);
-   (3) CfiRun models `.debug_frame` without augmentation for DW_CFA_set_loc only, which the writer never emits. *)
+   (3) CfiRun models `.debug_frame` without augmentation for DW_CFA_set_loc only, which the writer never emits.
+   CLOSED in section (8) below: items (1) and (2) are now theorems (reader_insn_effect_is_meaning,
+   rows_by_script_areas, rows_read_by_reader, table_rows_read_by_reader); this weaker statement is kept as it was. *)
 Theorem rows_read_by_reader_partial :
   forall (dbg be eh aa : bool) (cpos fpos coff : N) (c : CfiWr.cie) (f : CfiWr.fde) cb fb,
   cie_wf c = true -> fde_wf f = true ->
@@ -497,6 +501,156 @@ Proof.
   split; [vm_compute; reflexivity|]. split; reflexivity.
 Qed.
 
+
+(* ---------------------------------------------------------------------------------------------- *)
+(* (8) rows_read_by_reader — the three MISSING items above, closed (Spec/CfaScriptSpec.v, Proofs/CfaScriptProofs.v).
+   The call-frame machine is now defined DIRECTLY over the writer's script: [script_step] gives the meaning of
+   every write::CallFrameInstruction variant on (cfa, rules, args_size, remembered states) with offsets in
+   bytes and expressions as their bytes; [script_fde] completes a row exactly where the script's code offset
+   grows; [script_rows_lim caps aa asz init range cie fde] is the table, with a reader context's storage limits
+   layered on (rows needed = remembered + current + 1 for the saved initial rules when the CIE leaves >= 2;
+   rules = registers with a non-default rule) and [aa] = the reader's vendor knows negate_ra_state.
+
+   reader_insn_effect_is_meaning — (missing item 1) the effect of a reader instruction on the call-frame state
+   depends only on its C14 meaning: if the reader instruction is the reader form of a decoded instruction whose
+   meaning (CfaEncSpec.sem under the CIE's factors) is the abstract instruction i, and its expression operand
+   designates (X) the bytes of i's expression, then CfaSpec.spec_step on it and script_step on i agree: same
+   error, or related successor states (same registers in the same order with related rules, same CFA, args
+   size and remembered states). *)
+Theorem reader_insn_effect_is_meaning :
+  forall (X : CfaSpec.uexpr -> list byte -> Prop) (p : CfaSpec.sparams) (aa : bool)
+         (ini : option CfaSpec.rmap) (xini : option xmap) (s : CfaSpec.sstate) (xs : xstate) (ri : CfaSpec.insn) (i : cfi),
+  state_rel X s xs -> omap_rel X ini xini ->
+  insn_rel X (CfaSpec.sp_caf p) (CfaSpec.sp_daf p) ri i -> vendor_ok aa i = true ->
+  step_agrees X (CfaSpec.s_loc s) (CfaSpec.spec_step p ini s ri) (script_step aa xini xs i).
+Proof. exact step_by_meaning. Qed.
+
+(* rows_by_script_areas — for ANY abstract CIE program lc and FDE script lf (operands of the Rust types), the two
+   instruction areas the writer produces (write_insns / write_fde_insns, each followed by any nop padding), placed
+   at ANY section offsets coff / foff, evaluated by gimli's table model (CfiRun.fde_rows, C06: UnwindContext with
+   capacities caps, any build mode dbg', any vendor aa, any previous context cx) give exactly
+   script_rows_lim caps aa ... lc lf: row by row the same [start, end), args size, CFA, and for EVERY register the
+   same rule (row_sees), an expression operand being a section reference to the bytes of the script's expression
+   inside the CIE's or the FDE's area (in2); and the evaluation ends the same way (Done, or the same read::Error —
+   incl. StackFull / TooManyRegisterRules exactly when the script machine's occupancy exceeds caps, and
+   UnknownCallFrameInstruction for negate_ra_state under a non-AArch64 reader). No within_limits and no vendor
+   hypothesis: what happens when the limits are hit is part of the statement. *)
+Theorem rows_by_script_areas :
+  forall (dbg be aa : bool) (asz caf : N) (daf : Z) (lc : list cfi) (lf : list (N * cfi)) ci fi pad1 pad2,
+  forallb cfi_wf lc = true -> forallb fde_insn_wf lf = true -> is_u8 caf = true -> is_i8 daf = true ->
+  asz_ok asz ->
+  write_insns dbg daf lc = Ok ci -> write_fde_insns dbg be caf daf 0 lf = Ok fi ->
+  all_nop pad1 = true -> all_nop pad2 = true ->
+  forall dbg' caps cx init range coff foff,
+    CfiRun.cap_full (CfaSpec.max_stack caps) 0 = false ->
+    let fin := mk_fde_in be aa asz caf daf init range coff (ci ++ pad1) foff (fi ++ pad2) in
+    let scr := script_rows_lim caps aa asz init range lc lf in
+    Forall2 (row_sees (in2 coff (ci ++ pad1) foff (fi ++ pad2))) (fst (fst (CfiRun.fde_rows dbg' caps fin cx))) (fst scr) /\
+    snd (fst (CfiRun.fde_rows dbg' caps fin cx)) = snd scr.
+Proof. exact CfaScriptProofs.rows_by_script_areas. Qed.
+
+(* rows_read_by_reader — the full form of rows_read_by_reader_partial: a written CIE and a written FDE of it *)
+Theorem rows_read_by_reader :
+  forall (dbg be eh aa : bool) (cpos fpos coff : N) (c : CfiWr.cie) (f : CfiWr.fde) cb fb,
+  cie_wf c = true -> fde_wf f = true ->
+  cie_write dbg be eh cpos c = Ok cb -> fde_write dbg be eh fpos coff c f = Ok fb ->
+  exists cil chdr carea fil fhdr farea,
+    cb = cil ++ chdr ++ carea /\ fb = fil ++ fhdr ++ farea /\
+    len cil = ilen_size (c_fmt64 c) /\ len fil = ilen_size (c_fmt64 c) /\
+    forall dbg' caps cx init range,
+      CfiRun.cap_full (CfaSpec.max_stack caps) 0 = false ->
+      let cbase := cpos + len cil + len chdr in
+      let fbase := fpos + len fil + len fhdr in
+      let fi := fde_in_of be aa c init range cbase carea fbase farea in
+      let scr := script_rows_lim caps aa (c_asize c) init range (c_insns c) (f_insns f) in
+      Forall2 (row_sees (in2 cbase carea fbase farea)) (fst (fst (CfiRun.fde_rows dbg' caps fi cx))) (fst scr) /\
+      snd (fst (CfiRun.fde_rows dbg' caps fi cx)) = snd scr.
+Proof. exact rows_read_by_reader_full. Qed.
+
+(* table_rows_read_by_reader — (missing item 2) the whole written table through BOTH reader models: the entry
+   iterator (C05, CfiRd.entries_all) returns the tiles as in entries_read_by_reader, and for the k-th FDE tile the
+   FDE record fd that CfiRd.fde_parse returns — handed to the table evaluator through CfiUwi.fde_in_of, the very
+   adapter UnwindSection::unwind_info_for_address uses (C05 composition) — has the FDE's initial address and
+   range and evaluates (C06, any vendor, build mode, capacities, previous context) to the script machine's table
+   of the k-th FDE's script under its CIE's initial instructions. Expression references are resolved in the
+   instruction windows of the reader's own records (ci_instr / fd_instr). *)
+Theorem table_rows_read_by_reader : forall (dbg dbg' be eh : bool) (asz : N) (t : ftable) bs,
+  Forall (fun c => cie_wf c = true /\ c_asize c = asz) (t_cies t) ->
+  Forall (fun p => fde_wf (snd p) = true) (t_fdes t) ->
+  len bs + 16 < 4294967295 ->
+  write_table dbg be eh 0 t = Ok bs ->
+  exists chunks items,
+    map fst chunks = plan [] 0 (map fst (t_fdes t)) /\
+    bs = concat (map snd chunks) /\
+    CfiRd.entries_all dbg' (rd_cfg eh be asz) bs = Ok (items, None) /\
+    reader_sees dbg dbg' be eh asz (t_cies t) (t_fdes t) bs 0 [] chunks items /\
+    rows_seen dbg' be eh asz (t_cies t) (t_fdes t) bs chunks items.
+Proof. exact table_rows_read_by_reader_lem. Qed.
+
+(* what rows_seen says for one FDE tile *)
+Example rows_seen_unfold : forall dbg' be eh asz cies fdes sec k b r p its,
+  rows_seen dbg' be eh asz cies fdes sec ((CfaEncSpec.IFde k, b) :: r) (CfiRd.IFde p :: its) =
+  ((exists idx f c fd,
+      nth_error fdes k = Some (idx, f) /\ nth_error cies idx = Some c /\
+      CfiRd.fde_parse dbg' (rd_cfg eh be asz) sec p = Ok fd /\
+      (CfiRd.fd_init fd = addr_val (f_addr f) mod 2 ^ (8 * c_asize c) /\ CfiRd.fd_range fd = f_len f /\
+       forall aa dbg2 caps cx,
+         CfiRun.cap_full (CfaSpec.max_stack caps) 0 = false ->
+         let fi := CfiUwi.fde_in_of be aa fd in
+         let scr := script_rows_lim caps aa (c_asize c) (CfiRd.fd_init fd) (CfiRd.fd_range fd) (c_insns c) (f_insns f) in
+         Forall2 (row_sees (in2 (CfiRd.off (CfiRd.ci_instr (CfiRd.fd_cie fd))) (CfiRd.win (CfiRd.ci_instr (CfiRd.fd_cie fd)))
+                                (CfiRd.off (CfiRd.fd_instr fd)) (CfiRd.win (CfiRd.fd_instr fd))))
+                 (fst (fst (CfiRun.fde_rows dbg2 caps fi cx))) (fst scr) /\
+         snd (fst (CfiRun.fde_rows dbg2 caps fi cx)) = snd scr))
+   /\ rows_seen dbg' be eh asz cies fdes sec r its).
+Proof. reflexivity. Qed.
+
+(* the script machine on the running example, and a script that hits the row-stack limit of StoreOnHeap (4 rows):
+   the CIE leaves two rules (one row for the saved initial rules), two remember_state fit, the third is StackFull *)
+Example script_rows_ex :
+  script_rows false 4 4096 16 (c_insns cie_a) (f_insns (fde_a 4096)) =
+  ([ {| xr_start := 4096; xr_end := 4100; xr_cfa := XCfaRegOff 4 4; xr_args := 0; xr_rules := [] |};
+     {| xr_start := 4100; xr_end := 4112; xr_cfa := XCfaRegOff 4 8; xr_args := 0; xr_rules := [] |} ], CfaSpec.Done).
+Proof. vm_compute. reflexivity. Qed.
+Example script_rows_limit_ex :
+  snd (script_rows_lim heap_caps false 8 0 64 [Cfa 7 8; Offset 16 (-8); Offset 6 (-16)]
+                       [(0, RememberState); (4, RememberState); (8, RememberState)]) = CfaSpec.Fail EStackFull /\
+  length (fst (script_rows_lim heap_caps false 8 0 64 [Cfa 7 8; Offset 16 (-8); Offset 6 (-16)]
+                       [(0, RememberState); (4, RememberState); (8, RememberState)])) = 2%nat /\
+  snd (script_rows false 8 0 64 [Cfa 7 8; Offset 16 (-8); Offset 6 (-16)]
+                       [(0, RememberState); (4, RememberState); (8, RememberState)]) = CfaSpec.Done /\
+  snd (script_rows false 8 0 64 [] [(0, NegateRaState)]) = CfaSpec.Fail EUnknownCallFrameInstruction /\
+  snd (script_rows true 4 4294967000 400 [] [(4, Undefined 1); (300, Undefined 2)]) = CfaSpec.Fail EAddressOverflow.
+Proof. vm_compute. repeat split. Qed.
+(* the hypotheses of rows_by_script_areas on an instance with an expression and a vendor instruction *)
+Example rows_by_script_areas_ex :
+  forallb cfi_wf [Cfa 7 8; ValExpression 3 [x11; x22]] = true /\
+  forallb fde_insn_wf [(0, NegateRaState); (8, Expression 5 [x9c])] = true /\
+  exists ci fi,
+    write_insns true (-8) [Cfa 7 8; ValExpression 3 [x11; x22]] = Ok ci /\
+    write_fde_insns true false 4 (-8) 0 [(0, NegateRaState); (8, Expression 5 [x9c])] = Ok fi /\
+    map CfiRun.r_start (fst (fst (CfiRun.fde_rows true heap_caps (mk_fde_in false true 8 4 (-8) 4096 32 100 (ci ++ [x00]) 200 (fi ++ [x00; x00]))
+                              {| CfiRun.c_stack := []; CfiRun.c_initial_rule := None; CfiRun.c_init := true |}))) = [4096; 4104].
+Proof.
+  split; [reflexivity|]. split; [reflexivity|]. eexists. eexists.
+  split; [vm_compute; reflexivity|]. split; [vm_compute; reflexivity|]. vm_compute. reflexivity.
+Qed.
+
+
+(* script_fits_unlimited — "when the context's storage limits are not hit": if along the unlimited evaluation of
+   the script the occupancy never exceeds the capacities (script_fits, computed on the script alone), the limited
+   table IS the DWARF table (script_rows); otherwise rows_by_script_areas says where StackFull /
+   TooManyRegisterRules is reported. *)
+Theorem script_fits_unlimited : forall (c : CfaSpec.caps) (aa : bool) (asz init range : N) (cie : list cfi) (fde : list (N * cfi)),
+  script_fits c aa cie fde = true ->
+  script_rows_lim c aa asz init range cie fde = script_rows aa asz init range cie fde.
+Proof. exact CfaScriptProofs.script_fits_unlimited. Qed.
+Example script_fits_ex :
+  script_fits heap_caps false (c_insns cie_a) (f_insns (fde_a 4096)) = true /\
+  script_fits heap_caps false [Cfa 7 8; Offset 16 (-8); Offset 6 (-16)] [(0, RememberState); (4, RememberState); (8, RememberState)] = false /\
+  script_fits heap_caps false [Cfa 7 8; Offset 16 (-8); Offset 6 (-16)] [(0, RememberState); (4, RememberState)] = true.
+Proof. vm_compute. repeat split. Qed.
+
 (* pins *)
 Check factoring_exact. Check factoring_exact_code. Check advance_loc_forms. Check advance_loc_encodings.
 Check insn_write_read. Check fde_program_read. Check cie_program_read.
@@ -505,3 +659,5 @@ Check cie_eqb_eq. Check cie_dedup_ids. Check cie_dedup_emission. Check plan_spec
 Check pointer_read_back. Check cie_header_read. Check fde_header_read. Check table_roundtrip.
 Check table_roundtrip_partial. Check insn_read_by_reader. Check entries_read_by_reader. Check rows_read_by_reader_partial.
 Check no_panic_write. Check unsupported_address_size_is_error. Check lsda_mismatch_is_error. Check no_panic_build.
+Check reader_insn_effect_is_meaning. Check rows_by_script_areas. Check rows_read_by_reader. Check table_rows_read_by_reader.
+Check script_fits_unlimited.
